@@ -77,13 +77,68 @@ func applyImpl(trk tracker.ProgressTracker, cc *pb.ConfChangeV2) (tracker.Config
 	return ch.Simple(cc.Changes...)
 }
 
+// directOp is a direct call of one of the three Changer operations with
+// arbitrary arguments (the public API of package confchange), as opposed to
+// the dispatch raft.applyConfChange performs on a ConfChangeV2: through the
+// dispatch Simple only ever sees <= 1 single, EnterJoint never sees an
+// auto-transition with one single.
+type directOp struct {
+	Kind      refmodel.Kind
+	AutoLeave bool
+	cc        *pb.ConfChangeV2 // carries the singles (and, for dispatch, the transition)
+	Direct    bool
+}
+
+func (o directOp) String() string {
+	if !o.Direct {
+		return descCC(o.cc)
+	}
+	switch o.Kind {
+	case refmodel.KindLeaveJoint:
+		return "LeaveJoint()"
+	case refmodel.KindEnterJoint:
+		return fmt.Sprintf("EnterJoint(%v, %s)", o.AutoLeave, pb.ConfChangesToString(o.cc.GetChanges()))
+	}
+	return fmt.Sprintf("Simple(%s)", pb.ConfChangesToString(o.cc.GetChanges()))
+}
+
+func dispatchOp(cc *pb.ConfChangeV2) directOp {
+	k, al := refmodel.Classify(cc)
+	return directOp{Kind: k, AutoLeave: al, cc: cc}
+}
+
 // checkStep applies cc to (trk ~ model) with both implementations and
 // compares. Returns the next tracker/model (unchanged on rejection), whether
 // the change was accepted, and an error description if a check failed.
 func checkStep(trk tracker.ProgressTracker, model refmodel.Conf, cc *pb.ConfChangeV2) (tracker.ProgressTracker, refmodel.Conf, bool, string, string) {
+	return checkOp(trk, model, dispatchOp(cc))
+}
+
+func checkOp(trk tracker.ProgressTracker, model refmodel.Conf, op directOp) (tracker.ProgressTracker, refmodel.Conf, bool, string, string) {
+	cc := op.cc
+	descCC := func(*pb.ConfChangeV2) string { return op.String() }
 	before := snapshotTracker(trk)
-	cfg, prs, err := applyImpl(trk, cc)
-	want, werr := model.Apply(cc)
+	var cfg tracker.Config
+	var prs tracker.ProgressMap
+	var err, werr error
+	var want refmodel.Conf
+	if !op.Direct {
+		cfg, prs, err = applyImpl(trk, cc)
+		want, werr = model.Apply(cc)
+	} else {
+		ch := confchange.Changer{Tracker: trk, LastIndex: 10}
+		switch op.Kind {
+		case refmodel.KindLeaveJoint:
+			cfg, prs, err = ch.LeaveJoint()
+			want, werr = model.LeaveJoint()
+		case refmodel.KindEnterJoint:
+			cfg, prs, err = ch.EnterJoint(op.AutoLeave, cc.GetChanges()...)
+			want, werr = model.EnterJoint(op.AutoLeave, refmodel.Singles(cc)...)
+		default:
+			cfg, prs, err = ch.Simple(cc.GetChanges()...)
+			want, werr = model.Simple(refmodel.Singles(cc)...)
+		}
+	}
 	if after := snapshotTracker(trk); after != before {
 		return trk, model, false, "input_untouched", fmt.Sprintf("applying %s to %s changed the input tracker: %s -> %s (err=%v)", descCC(cc), model, before, after, err)
 	}
@@ -100,6 +155,9 @@ func checkStep(trk tracker.ProgressTracker, model refmodel.Conf, cc *pb.ConfChan
 	if ierr := got.CheckInvariants(); ierr != nil {
 		return trk, model, false, "invariants", fmt.Sprintf("change %s on %s yields %s violating: %v", descCC(cc), model, got, ierr)
 	}
+	if len(cfg.Voters[0]) == 0 {
+		return trk, model, false, "no_voter_left", fmt.Sprintf("change %s on %s leaves no incoming voter", descCC(cc), model)
+	}
 	// progress records: exactly the members, learner flag iff in Learners
 	members := got.Members()
 	if len(prs) != len(members) {
@@ -114,7 +172,7 @@ func checkStep(trk tracker.ProgressTracker, model refmodel.Conf, cc *pb.ConfChan
 			return trk, model, false, "progress_learner_flag", fmt.Sprintf("change %s on %s: member %d IsLearner=%v but learners=%v", descCC(cc), model, id, p.IsLearner, refmodel.SortedKeys(got.Learners))
 		}
 	}
-	if k, _ := refmodel.Classify(cc); k == refmodel.KindSimple {
+	if op.Kind == refmodel.KindSimple {
 		n := 0
 		for id := range got.Voters {
 			if !model.Voters[id] {
@@ -191,7 +249,7 @@ func drawInitial(rt *rapid.T, maxID int) refmodel.Conf {
 
 // TestC13 generates programs of conf changes (stateful, model-based).
 func TestC13(t *testing.T) {
-	rep := report.New("C13", "programs: a drawn valid non-joint config over ids {1..5} followed by 1..30 ConfChangeV2 operations (0..4 singles of any type over ids {0..6}, any transition), dispatched exactly like raft.applyConfChange; oracle = independent set-based reference model (accept/reject + result), invariants, input purity, ConfState round trip through the wire; non-trivial = the program entered and left a joint config, or demoted an outgoing voter, or had a rejected op followed by an accepted one; distinct = digest of the program")
+	rep := report.New("C13", "programs: a drawn valid non-joint config over ids {1..5} followed by 1..30 ConfChangeV2 operations (0..4 singles of any type over ids {0..6}, any transition), three quarters dispatched exactly like raft.applyConfChange and one quarter as direct Changer.Simple/EnterJoint/LeaveJoint calls with the same singles; oracle = independent set-based reference model (accept/reject + result), invariants, input purity, ConfState round trip through the wire; non-trivial = the program entered and left a joint config, or demoted an outgoing voter, or had a rejected op followed by an accepted one; distinct = digest of the program")
 	defer rep.Write()
 	rapid.Check(t, c13Prop(rep))
 }
@@ -211,7 +269,7 @@ func c13Prop(rep *report.R) func(*rapid.T) {
 		}
 		n := rapid.IntRange(1, 30).Draw(rt, "ops")
 		var prog []string
-		entered, left, demotedOutgoing, rejThenAcc, lastRejected := false, false, false, false, false
+		entered, left, demotedOutgoing, rejThenAcc, lastRejected, multiSimple := false, false, false, false, false, false
 		for i := 0; i < n; i++ {
 			cc := &pb.ConfChangeV2{Transition: ccTrans[rapid.IntRange(0, 2).Draw(rt, "tr")].Enum()}
 			k := rapid.IntRange(0, 4).Draw(rt, "singles")
@@ -225,7 +283,13 @@ func c13Prop(rep *report.R) func(*rapid.T) {
 					NodeId: new(uint64(rapid.IntRange(0, 6).Draw(rt, "id"))),
 				})
 			}
-			prog = append(prog, descCC(cc))
+			op := dispatchOp(cc)
+			// a quarter of the operations call the Changer directly with an
+			// operation kind drawn independently of the number of singles
+			if dk, dal := rapid.IntRange(0, 11).Draw(rt, "direct"), rapid.Bool().Draw(rt, "directautoleave"); dk < 3 {
+				op = directOp{Kind: []refmodel.Kind{refmodel.KindSimple, refmodel.KindEnterJoint, refmodel.KindLeaveJoint}[dk], AutoLeave: dal, cc: cc, Direct: true}
+			}
+			prog = append(prog, op.String())
 			wasJoint := model.Joint()
 			for _, s := range cc.GetChanges() {
 				if s.GetType() == pb.ConfChangeAddLearnerNode && model.Outgoing[s.GetNodeId()] {
@@ -234,7 +298,10 @@ func c13Prop(rep *report.R) func(*rapid.T) {
 			}
 			var ok bool
 			var sig, msg string
-			trk, model, ok, sig, msg = checkStep(trk, model, cc)
+			trk, model, ok, sig, msg = checkOp(trk, model, op)
+			if ok && op.Direct && op.Kind == refmodel.KindSimple && len(cc.GetChanges()) > 1 {
+				multiSimple = true
+			}
 			if sig != "" {
 				failed = true
 				v13(rt, sig, "%s (program: %s)", msg, strings.Join(prog, " ; "))
@@ -266,6 +333,9 @@ func c13Prop(rep *report.R) func(*rapid.T) {
 			if rejThenAcc {
 				cls = append(cls, "rejected_then_accepted")
 			}
+			if multiSimple {
+				cls = append(cls, "direct_simple_with_several_singles_accepted")
+			}
 			rep.Case((entered && left) || demotedOutgoing || rejThenAcc, report.Digest(strings.Join(prog, ";")), cls, func() string { return strings.Join(prog, " ; ") })
 		}
 	}
@@ -279,7 +349,7 @@ func TestC13Closure(t *testing.T) {
 	if os.Getenv("VERIF_TIER") == "thorough" {
 		maxID = 4
 	}
-	rep := report.New("C13", fmt.Sprintf("closure part: BFS over all configurations reachable over ids {1..%d} from every non-joint start config, applying every ConfChangeV2 with 0..2 singles (4 types x ids {0..%d}) x 3 transitions until no new configuration appears; every (state, change) pair is distinct by construction; non-trivial = the change was accepted or the state was joint", maxID, maxID))
+	rep := report.New("C13", fmt.Sprintf("closure part: BFS over all configurations reachable over ids {1..%d} from every non-joint start config, applying every ConfChangeV2 with 0..2 singles (4 types x ids {0..%d}) x 3 transitions (dispatched like raft.applyConfChange) plus direct Changer calls the dispatch never makes (Simple with 2 and 3 singles, EnterJoint with 0..1 singles and either autoLeave) until no new configuration appears; every (state, change) pair is distinct by construction; non-trivial = the change was accepted or the state was joint", maxID, maxID))
 	defer rep.Write()
 	// all singles
 	var singles []*pb.ConfChangeSingle
@@ -296,6 +366,26 @@ func TestC13Closure(t *testing.T) {
 			for _, b := range singles {
 				changes = append(changes, &pb.ConfChangeV2{Transition: tr.Enum(), Changes: []*pb.ConfChangeSingle{a, b}})
 			}
+		}
+	}
+	// direct calls the dispatch never makes: Simple with 2 or 3 singles,
+	// EnterJoint(autoLeave) with 0 or 1 singles and both autoLeave values
+	var directOps []directOp
+	for _, a := range singles {
+		for _, b := range singles {
+			directOps = append(directOps, directOp{Kind: refmodel.KindSimple, Direct: true, cc: &pb.ConfChangeV2{Changes: []*pb.ConfChangeSingle{a, b}}})
+			for _, c := range singles {
+				if c.GetType() == pb.ConfChangeUpdateNode || c.GetNodeId() == 0 {
+					continue
+				}
+				directOps = append(directOps, directOp{Kind: refmodel.KindSimple, Direct: true, cc: &pb.ConfChangeV2{Changes: []*pb.ConfChangeSingle{a, b, c}}})
+			}
+		}
+	}
+	for _, al := range []bool{false, true} {
+		directOps = append(directOps, directOp{Kind: refmodel.KindEnterJoint, AutoLeave: al, Direct: true, cc: &pb.ConfChangeV2{}})
+		for _, a := range singles {
+			directOps = append(directOps, directOp{Kind: refmodel.KindEnterJoint, AutoLeave: al, Direct: true, cc: &pb.ConfChangeV2{Changes: []*pb.ConfChangeSingle{a}}})
 		}
 	}
 	// start states: every assignment id -> {none, voter, learner} with >= 1 voter
@@ -330,6 +420,20 @@ func TestC13Closure(t *testing.T) {
 		}
 		if !confOfTracker(trk.Config).Equal(cur) {
 			v13(t, "roundtrip", "Restore(ConfState(%s)) yields %s", cur, confOfTracker(trk.Config))
+		}
+		for _, op := range directOps {
+			transitions++
+			_, next, ok, sig, msg := checkOp(trk, cur, op)
+			if sig != "" {
+				v13(t, sig, "%s", msg)
+			}
+			if ok || cur.Joint() {
+				nontriv++
+			}
+			if ok && !seen[next.Key()] {
+				seen[next.Key()] = true
+				queue = append(queue, next)
+			}
 		}
 		for _, cc := range changes {
 			transitions++
